@@ -43,7 +43,7 @@ func firstDiff(a, b []string) (int, string, string) {
 
 func checkC20(ca *checkArgs) int {
 	start := time.Now()
-	n, budget := 24000, 60*time.Second
+	n, budget := 60000, 60*time.Second
 	if ca.tier == "thorough" {
 		n, budget = 3000000, 20*time.Minute
 	}
